@@ -154,7 +154,8 @@ struct cursor {
 	int buf;
 	unsigned off;
 };
-static struct cursor cursors[4];
+#define NCURSOR 512
+static struct cursor cursors[NCURSOR];
 static void *main_ident;
 
 static char recbuf[1 << 16];
@@ -171,7 +172,7 @@ static void collect_records(void)
 	if (mtdp == NULL || check_thread_data(mtdp) || mtdp->shmem.buffer == NULL)
 		return;
 	shmem = &mtdp->shmem;
-	for (i = 0; i < 4; i++) {
+	for (i = 0; i < NCURSOR; i++) {
 		if (cursors[i].ident == shmem->buffer || cursors[i].ident == NULL) {
 			c = &cursors[i];
 			break;
